@@ -15,6 +15,9 @@ DeletePoints and SearchPoints:
     inside the storage transaction, no defer that settles it there);
   * after the callback: an `if err != nil {` block whose first cacheTx statement is
     `cacheTx.Commit(true)` and which returns, then `cacheTx.Commit(false)`.
+It also reads every non-test file of shard/index and demands that shared caches are entered only through
+`im.cx.With(cacheName, <literal>, newVamanaFn|newFlatFn, ...)`, with readOnly = false at the two sites of the
+write pipeline (dispatch.go) and readOnly = true at the two sites of the search path (search.go).
 Anything else: exit 3, previous output kept.
 
 Usage: gen_tx_order.py <repo> <out.v>
@@ -87,13 +90,37 @@ def main():
         if ctx2 != ['cacheTx.Commit(false)']:
             fail('%s: after the error block exactly one cacheTx.Commit(false) is expected (found %s)' % (name, ctx2))
         rows.append((name, kind))
+    # ---- access mode of every cache the index manager enters (shard/index): the write pipeline takes its caches
+    # exclusively (readOnly = false), the search path shared (readOnly = true); nobody else enters a cache transaction
+    idir = os.path.join(repo, 'shard', 'index')
+    sites = []
+    for fn in sorted(os.listdir(idir)):
+        if not fn.endswith('.go') or fn.endswith('_test.go'):
+            continue
+        isrc = open(os.path.join(idir, fn)).read()
+        for m in re.finditer(r'\b(\w+(?:\.\w+)*)\.With\(([^\n]*)', isrc):
+            recv, args = m.group(1), m.group(2)
+            if recv in ('log', 'logger') or recv.endswith('.logger') or recv.endswith('log'):
+                continue
+            if recv != 'im.cx':
+                fail('%s: a cache transaction is entered through %s.With (only im.cx.With is known)' % (fn, recv))
+            parts = [a.strip() for a in args.split(',')]
+            if len(parts) < 4 or parts[0] != 'cacheName' or parts[1] not in ('true', 'false') or parts[2] not in ('newVamanaFn', 'newFlatFn'):
+                fail('%s: im.cx.With call not of the form (cacheName, true|false, newVamanaFn|newFlatFn, ...): %s' % (fn, args))
+            sites.append((fn, parts[2], parts[1] == 'true'))
+    want = sorted([('dispatch.go', 'newFlatFn', False), ('dispatch.go', 'newVamanaFn', False), ('search.go', 'newFlatFn', True), ('search.go', 'newVamanaFn', True)])
+    if sorted(sites) != want:
+        fail('the caches are entered at %s; expected exactly %s (writers exclusive in dispatch.go, readers shared in search.go)' % (sorted(sites), want))
     body = ['(* generated by gen/gen_tx_order.py from shard/shard.go -- do not edit *)',
             'From Coq Require Import List String.', 'Import ListNotations.', 'Open Scope string_scope.', '',
             'Inductive tx_event := NewCacheTx | StorageBegin (write : bool) | Callback | StorageEnd | CacheCommit.',
             '(* the bracket the translator has checked, per operation: the cache transaction is settled AFTER the storage',
             '   transaction has ended, with fail = (the storage transaction returned an error) *)',
             'Definition tx_bracket (write : bool) : list tx_event := [NewCacheTx; StorageBegin write; Callback; StorageEnd; CacheCommit].',
-            'Definition shard_operations : list (string * bool) := [%s].' % '; '.join('("%s", %s)' % (n, 'true' if k == 'Write' else 'false') for n, k in rows), '']
+            'Definition shard_operations : list (string * bool) := [%s].' % '; '.join('("%s", %s)' % (n, 'true' if k == 'Write' else 'false') for n, k in rows),
+            'Definition write_pipeline_file := "dispatch.go".', 'Definition search_path_file := "search.go".',
+            '(* every place where shard/index enters a shared cache: (file, constructor, readOnly) *)',
+            'Definition cache_access_sites : list (string * string * bool) := [%s].' % '; '.join('("%s", "%s", %s)' % (f, c, 'true' if ro else 'false') for f, c, ro in sorted(sites)), '']
     txt = '\n'.join(body)
     if not os.path.exists(out) or open(out).read() != txt:
         open(out, 'w').write(txt)
